@@ -2,7 +2,6 @@ package collector
 
 import (
 	"runtime"
-	"sync"
 	"time"
 
 	"github.com/honeycombio/refinery/config"
@@ -134,10 +133,7 @@ func (f *Fixture) JumpLoop(d time.Duration) {
 // WaitGroup the loop signals after running sendTracesEarly.
 func (f *Fixture) EjectLoop(w int, bytes int) {
 	f.mustLoop()
-	var wg sync.WaitGroup
-	wg.Add(1)
-	f.Coll.VerifSignalSendEarly(w, bytes, &wg)
-	wg.Wait()
+	f.Coll.VerifPostSendEarly(w, bytes)()
 	f.Quiesce(w)
 }
 
